@@ -2,7 +2,7 @@
 
 from __future__ import annotations
 
-from .. import gen, oracles as O, rig
+from .. import gen, oracles as O, rig, tconc
 from ..view import TOL, View
 from . import common
 
@@ -84,6 +84,9 @@ def work(ctx, tier):
         ctx.inc("random_scenarios")
     common.crossing_slice(ctx, tier, common.rng_for(ctx, "crossing"), lambda sc, e: _one(ctx, sc, e, stats, rng))
     common.reconfig_slice(ctx, tier, common.rng_for(ctx, "reconfig"), lambda sc, e: _one(ctx, sc, e, stats, rng))
+    # async calls overlapping on ONE policy object, each with its own deadline measured from its own start (another task's work
+    # may carry the clock forward at any suspension point)
+    tconc.thread_slice(ctx, tier, common.rng_for(ctx, "tasks"), ["envelope"], budget=False, breaker=False, tasks=True, nprog=4 if tier == "quick" else None)
     if ctx.shard == 0:
         from . import hang
 
@@ -104,6 +107,7 @@ def conclude(ctx):
     }
     common.crossing_floors(ctx, floors)
     floors["hung_attempt_deadline_runs"] = (ctx.cnt["hung_attempt_deadline_runs"], 1)
+    floors["overlap_schedules_run"] = (ctx.cnt["overlap_schedules_run"], 100)
     floors["reconfigured_scenarios"] = (ctx.cnt["reconfigured_scenarios"], 80)
 
     return dict(
@@ -127,6 +131,8 @@ def conclude(ctx):
 
 def replay(data):
     p = data["payload"]
+    if "tspec" in p:
+        return tconc.replay(p)
     if "hang" in p:
         import collections
 
